@@ -18,10 +18,10 @@ PROP = {
             "configurations observe exactly what the model observes. Statement on the model: same observations for thresholds (8,4), (0,0), (1000,1000) with the cache off. "
             "A difference counts as a listed class only if its first occurrence comes at or after an input in which the model executed an in-place-capable operation on a "
             "large container THROUGH A NAME THAT MAY SHARE STORAGE with another live name, decided by a syntactic may-alias analysis over the session's trees (plain copies, arguments, "
-            "containment incl. what a map LITERAL operand of + holds, slices/rest of arrays, array +, closures returned by known functions; literals, *, + with a map on the left and rest/slices of maps are fresh); since repo fix 9255529 a `+` on a large array excuses nothing: a write through a name owning fresh storage never explains a difference. non-trivial = at least one input parses; distinct = distinct case line.",
+            "containment incl. what a map LITERAL operand of + holds, slices/rest of arrays, array +, closures returned by known functions; literals, *, + with a map on the left and rest/slices of maps are fresh); since repo fix 11369d7 a `+` on a large array excuses nothing: a write through a name owning fresh storage never explains a difference. non-trivial = at least one input parses; distinct = distinct case line.",
     "trusted_base": EVAL_TB + ["the Go heap (sharing of BigArray slices / *BigMap pointers) is NOT modelled: the model is the value-semantic specification; the two open classes "
                                "are decided by the driver from what the MODEL executed (St.hazards), see lean/Grol/Eval/HazardSession.lean"],
-    "assumptions": EVAL_ASSUME + ["C06.Statement is about the implementation and is false of the current code for large containers (2 open classes, witnesses replayed every run; the append class is repaired by repo fix 9255529)"],
+    "assumptions": EVAL_ASSUME + ["C06.Statement is about the implementation and is false of the current code for large containers (2 open classes, witnesses replayed every run; the append class is repaired by repo fix 11369d7)"],
 }
 LEVEL = {"text": "Kernel-checked theorems that the reference model has value semantics (writes are framed to the assigned name, every infix operator leaves the state unchanged, "
                  "the operator layer ignores the thresholds) + exhaustive short and random long histories on the real interpreter compared with that model after every step.",
